@@ -567,13 +567,24 @@ def add_mul_wallace(
     labels_a = []
     labels_b = []
     shift = 0
+    zero = None
     for i in range(n + m):
-        if c[i][0] != PLACEHOLDER_STR:
-            labels_a.append(c[i][0])
+        # a row may have empty columns between its bits: they count as zeros,
+        # otherwise the bits above the gap would be summed one column too low.
+        if c[i][0] == PLACEHOLDER_STR or (
+            c[i][1] == PLACEHOLDER_STR and len(labels_b) > 0
+        ):
+            if zero is None:
+                zero = add_gate_from_tt(
+                    circuit, input_labels_a[0], input_labels_a[0], '0000'
+                )
+        labels_a.append(c[i][0] if c[i][0] != PLACEHOLDER_STR else zero)
         if c[i][1] != PLACEHOLDER_STR:
             labels_b.append(c[i][1])
         elif len(labels_b) == 0:
             shift += 1
+        else:
+            labels_b.append(zero)
 
     return reverse_if_big_endian(
         add_sum_two_numbers_with_shift(circuit, shift, labels_a, labels_b)[: n + m],
